@@ -36,5 +36,5 @@ func main() {
 	genRuneWidth()
 	genConsts()
 	genTerminfo()
-	genLookupMode()
+	genC14()
 }
